@@ -727,14 +727,59 @@ func c07Root(w *World, r *Report) {
 	root := w.Field("parse", "Tree", "Root")
 	// success return preceded by t.parse()
 	okOrder := false
-	for i, s := range pfd.Body.List {
-		if ret, ok := s.(*ast.ReturnStmt); ok && len(ret.Results) == 2 && isNilIdent(p, ret.Results[1]) {
-			for _, prev := range pfd.Body.List[:i] {
-				if len(callsTo(p, prev, inner)) > 0 {
-					okOrder = true
+	if pf, inf := w.SSAFunc(parse), w.SSAFunc(inner); pf != nil && inf != nil {
+		// a call that runs t.parse(): the call itself, or a helper of the package on every way through which it is made
+		runsParse := func(c *ssa.Call) bool {
+			g := c.Call.StaticCallee()
+			if g == inf {
+				return true
+			}
+			if g == nil || g.Blocks == nil || g.Pkg != pf.Pkg {
+				return false
+			}
+			for _, gb := range g.Blocks {
+				for _, gin := range gb.Instrs {
+					if gc, ok := gin.(*ssa.Call); ok && gc.Call.StaticCallee() == inf {
+						all := true
+						for _, rb := range g.Blocks {
+							if _, isRet := rb.Instrs[len(rb.Instrs)-1].(*ssa.Return); isRet && !(gb == rb || gb.Dominates(rb)) {
+								all = false
+							}
+						}
+						if all {
+							return true
+						}
+					}
+				}
+			}
+			return false
+		}
+		var parsed []*ssa.BasicBlock
+		for _, b := range pf.Blocks {
+			for _, in := range b.Instrs {
+				if c, ok := in.(*ssa.Call); ok && runsParse(c) {
+					parsed = append(parsed, b)
 				}
 			}
 		}
+		nSucc := 0
+		okOrder = len(parsed) > 0
+		for _, b := range pf.Blocks {
+			ret, ok := b.Instrs[len(b.Instrs)-1].(*ssa.Return)
+			if !ok || len(ret.Results) != 2 || b == pf.Recover {
+				continue
+			}
+			if !isNilConst(unspill(ret.Results[1])) {
+				continue
+			}
+			nSucc++
+			dom := false
+			for _, pb := range parsed {
+				dom = dom || pb == b || pb.Dominates(b)
+			}
+			okOrder = okOrder && dom
+		}
+		okOrder = okOrder && nSucc > 0
 	}
 	r.Check(okOrder, "R07.6", "Tree.Parse success return", pfd.Pos(), "return t, nil only after t.parse()", "Parse can return a nil error without having parsed")
 	ifd, _ := w.FuncDecl(inner)
